@@ -292,6 +292,8 @@ def name_mappings():
         "nested": {"map": {"a": ("n", "x"), "b": ("n", "y")}},
         "nested-forbid": {"map": {"a": ("n", "x")}, "extra_in": "forbid"},
         "siblings": {"map": {"a": ("s1", "x"), "b": ("s2", "y")}},
+        # two sibling sub-documents two levels deep under ONE top-level key (a wrong-typed sub-document must not hide its sibling)
+        "deep-siblings": {"map": {"a": ("g", "s", "x"), "b": ("g", "e", "y")}},
         "list": {"as_list": True},
         "list-forbid": {"as_list": True, "extra_in": "forbid"},
         "list-nested": {"map": {"a": 0, "b": (1, "x")}},
@@ -448,7 +450,7 @@ def loader_family(tier="quick", group="base"):
             continue            # the four-field model is combined with every layout only in the thorough tier
         if tier == "quick" and mname in ("three", "kwonly") and nname == "nested-forbid" and dt.name == "ALL":
             continue
-        if nname in ("nested", "list-nested", "rename", "nested-forbid", "siblings") and not all(k in [f.name for f in fields] for k in nm["map"]):
+        if nname in ("nested", "list-nested", "rename", "nested-forbid", "siblings", "deep-siblings") and not all(k in [f.name for f in fields] for k in nm["map"]):
             continue
         cases.append(Case(f"{mname}/{nname}/{dt.name}/{'strict' if strict else 'lax'}", fields, nm, dt, strict))
     # chaining (partial overriding): "the result is computed by merging all parameters of matched name_mapping; the first provider
